@@ -82,6 +82,47 @@ theorem Reaches.final {p : Nat} {m : M κ} {cJ : Common} {lJ : LexRegs} {tr : Tr
   refine ⟨0, cJ, lJ, tr, hF, htr, by omega, fun fuel => ?_⟩
   rw [show 0 + 1 + fuel = fuel + 1 by omega, runLoop_succ, hs]
 
+
+/-- The tag does not end in this input: after `k` silent state-function calls (sink and simulator
+untouched) the next call is the end-of-input step of a tag state, with `lexeme_start` still at `<`. -/
+def ReachesEnd (env : Env κ) (inp : Bytes) (F : Frame κ) (m : M κ) : Prop :=
+  ∃ k cE lE, cE.nextPos = inp.length + 1 ∧ cE.isLast = F.il ∧ cE.cdataAllowed = F.ca ∧
+    cE.lastStartTagNameHash = F.lsh ∧ cE.lastTextType = F.ltt ∧ lE.lexemeStart = F.ls ∧
+    ∀ fuel, runLoop env inp (k + 1 + fuel) m = cont env inp fuel (eofStep env inp cE lE F.x)
+
+/-- what the run from `m` must do, according to the spec's result -/
+def Goal (env : Env κ) (inp : Bytes) (F : Frame κ) (hf : Tag → Nat) (res : Res) (p : Nat) (m : M κ) : Prop :=
+  match res with
+  | .finished t => Reaches env inp F (hf t) t p m
+  | .unfinished => ReachesEnd env inp F m
+
+theorem ReachesEnd.step {m m' : M κ} (hs : stateFn env inp m = (m', none))
+    (hr : ReachesEnd env inp F m') : ReachesEnd env inp F m := by
+  obtain ⟨k, cE, lE, e1, e2, e3, e4, e5, e6, hrun⟩ := hr
+  refine ⟨k + 1, cE, lE, e1, e2, e3, e4, e5, e6, fun fuel => ?_⟩
+  rw [show k + 1 + 1 + fuel = (k + 1 + fuel) + 1 by omega, runLoop_step hs]
+  exact hrun fuel
+
+theorem ReachesEnd.final {m : M κ} {cE : Common} {lE : LexRegs}
+    (hs : stateFn env inp m = eofStep env inp cE lE F.x) (e1 : cE.nextPos = inp.length + 1) (e2 : cE.isLast = F.il)
+    (e3 : cE.cdataAllowed = F.ca) (e4 : cE.lastStartTagNameHash = F.lsh) (e5 : cE.lastTextType = F.ltt)
+    (e6 : lE.lexemeStart = F.ls) : ReachesEnd env inp F m := by
+  refine ⟨0, cE, lE, e1, e2, e3, e4, e5, e6, fun fuel => ?_⟩
+  rw [show 0 + 1 + fuel = fuel + 1 by omega, runLoop_succ, hs]
+
+theorem Goal.step {hf : Tag → Nat} {res : Res} {p p' : Nat} {m m' : M κ} (hs : stateFn env inp m = (m', none))
+    (hp : p < p') (hr : Goal env inp F hf res p' m') : Goal env inp F hf res p m := by
+  cases res with
+  | finished t => exact Reaches.step hs hp hr
+  | unfinished => exact ReachesEnd.step hs hr
+
+theorem Goal.step2 {hf : Tag → Nat} {res : Res} {p p' : Nat} {m m1 m2 : M κ} (hs1 : stateFn env inp m = (m1, none))
+    (hs2 : stateFn env inp m1 = (m2, none)) (hp : p < p')
+    (hr : Goal env inp F hf res p' m2) : Goal env inp F hf res p m := by
+  cases res with
+  | finished t => exact Reaches.step2 hs1 hs2 hp hr
+  | unfinished => exact ReachesEnd.step hs1 (ReachesEnd.step hs2 hr)
+
 end
 
 theorem drop_cons_facts {α : Type} {inp : List α} {p : Nat} {b : α} {rest : List α} (h : inp.drop p = b :: rest) :
@@ -127,25 +168,74 @@ section
 variable {env : Env κ} (hok : TagStatesOk env.tbl = true) {inp : Bytes} (F : Frame κ) (nm : Range) (h : Nat)
 include hok
 
+omit hok in
+theorem getElem?_none_of_drop_nil {inp : Bytes} {p : Nat} (h : inp.drop p = []) : inp[p]? = none := by
+  rw [List.drop_eq_nil_iff] at h
+  exact List.getElem?_eq_none h
+
+/-- the input ends inside the tag -/
+theorem attrs_end (st : St) (p S : Nat) (en : Bool) (cq : UInt8) (tps : Nat) (cattr : Option AttrOutline)
+    (ct : Option TagOutline) (hdrop : inp.drop p = []) (hple : p ≤ inp.length) (hrel : Rel st p S en cq tps cattr) :
+    ReachesEnd env inp F (mach F p S en cq tps ct cattr) := by
+  have hb := getElem?_none_of_drop_nil hdrop
+  have hp : p = inp.length := by
+    rw [List.drop_eq_nil_iff] at hdrop; omega
+  obtain ⟨hq, hrel⟩ := hrel
+  cases st with
+  | beforeAttrName sol =>
+    simp only at hrel
+    cases sol with
+    | false => subst hrel; exact ReachesEnd.final (step33_eof hok hb) (by simp [hp]) rfl rfl rfl rfl rfl
+    | true => subst hrel; exact ReachesEnd.final (step32_eof hok hb) (by simp [hp]) rfl rfl rfl rfl rfl
+  | attrName s =>
+    obtain ⟨hS, _, _⟩ := hrel
+    subst hS; exact ReachesEnd.final (step34_eof hok hb) (by simp [hp]) rfl rfl rfl rfl rfl
+  | afterAttrName n =>
+    obtain ⟨hS, _⟩ := hrel
+    subst hS; exact ReachesEnd.final (step35_eof hok hb) (by simp [hp]) rfl rfl rfl rfl rfl
+  | beforeAttrValue n =>
+    obtain ⟨hS, _⟩ := hrel
+    subst hS; exact ReachesEnd.final (step36_eof hok hb) (by simp [hp]) rfl rfl rfl rfl rfl
+  | valueQuoted q n vs =>
+    obtain ⟨_, _, hen, hcq, hS⟩ := hrel
+    subst hen hcq
+    rcases hS with ⟨rfl, rfl⟩ | ⟨rfl, rfl⟩
+    · exact ReachesEnd.final (step38_eof hok (by rw [hdrop]; rfl)) (by simp [hp]) rfl rfl rfl rfl rfl
+    · exact ReachesEnd.final (step37_eof hok (by rw [hdrop]; rfl)) (by simp [hp]) rfl rfl rfl rfl rfl
+  | valueUnquoted n vs =>
+    obtain ⟨hS, hen, _, _⟩ := hrel
+    subst hS hen; exact ReachesEnd.final (step39_eof hok hb) (by simp [hp]) rfl rfl rfl rfl rfl
+
 /-- **The attribute loop.** -/
 theorem run_attrs (n : Nat) : ∀ (rest : List UInt8), rest.length ≤ n →
     ∀ (st : St) (p S : Nat) (en : Bool) (cq : UInt8) (tps : Nat) (cattr : Option AttrOutline) (as : List AttrOutline),
-    inp.drop p = rest → Rel st p S en cq tps cattr →
-    ∀ t, attrs nm as st rest p = .finished t →
-    Reaches env inp F h t p (mach F p S en cq tps (some (.startTag nm h .html as false)) cattr) := by
+    inp.drop p = rest → p ≤ inp.length → Rel st p S en cq tps cattr →
+    ∀ res, attrs nm as st rest p = res →
+    Goal env inp F (fun _ => h) res p (mach F p S en cq tps (some (.startTag nm h .html as false)) cattr) := by
+  have hnil : ∀ (st : St) (p : Nat) (as : List AttrOutline), attrs nm as st [] p = .unfinished := by
+    intro st p as; cases st <;> rfl
   induction n with
   | zero =>
-    intro rest hlen st p S en cq tps cattr as _ _ t hfin
+    intro rest hlen st p S en cq tps cattr as hdrop hple hrel t hfin
     have : rest = [] := by cases rest <;> simp_all
     subst this
-    cases st <;> simp [attrs] at hfin
+    rw [hnil] at hfin
+    subst hfin
+    exact attrs_end hok F st p S en cq tps cattr _ hdrop hple hrel
   | succ n ih =>
-    intro rest hlen st p S en cq tps cattr as hdrop hrel t hfin
+    intro rest hlen st p S en cq tps cattr as hdrop hple hrel t hfin
     cases rest with
-    | nil => cases st <;> simp [attrs] at hfin
+    | nil =>
+      rw [hnil] at hfin
+      subst hfin
+      exact attrs_end hok F st p S en cq tps cattr _ hdrop hple hrel
     | cons b rest =>
     obtain ⟨hb, hdrop'⟩ := drop_cons_facts hdrop
     have hlen' : rest.length ≤ n := by simp at hlen; omega
+    have hple' : p + 1 ≤ inp.length := by
+      rcases Nat.lt_or_ge p inp.length with hlt | hge
+      · exact hlt
+      · rw [List.getElem?_eq_none hge] at hb; simp at hb
     obtain ⟨hq, hrel⟩ := hrel
     cases st with
     | beforeAttrName sol =>
@@ -153,37 +243,36 @@ theorem run_attrs (n : Nat) : ∀ (rest : List UInt8), rest.length ≤ n →
       simp only [attrs] at hfin
       by_cases hws : isWs b = true
       · rw [if_pos hws] at hfin
-        have hr := ih rest hlen' (.beforeAttrName false) (p + 1) 33 false cq tps cattr as hdrop' ⟨hq, by simp⟩ t hfin
+        have hr := ih rest hlen' (.beforeAttrName false) (p + 1) 33 false cq tps cattr as hdrop' hple' ⟨hq, by simp⟩ t hfin
         have hne : ¬b = 62 := by
           have := isWs_true hws; unfold IsWs at this
           rcases this with rfl | rfl | rfl | rfl | rfl <;> decide
         cases sol with
         | false =>
           subst hrel
-          have hr' := ih rest hlen' (.beforeAttrName false) (p + 1) 33 en cq tps cattr as hdrop' ⟨hq, by simp⟩ t hfin
-          exact Reaches.step (step33_ws hok hb (isWs_true hws)) (Nat.lt_succ_self p) hr'
+          have hr' := ih rest hlen' (.beforeAttrName false) (p + 1) 33 en cq tps cattr as hdrop' hple' ⟨hq, by simp⟩ t hfin
+          exact Goal.step (step33_ws hok hb (isWs_true hws)) (Nat.lt_succ_self p) hr'
         | true =>
           subst hrel
-          exact Reaches.step2 (step32_other hok hb hne) (step33_ws hok hb (isWs_true hws)) (Nat.lt_succ_self p) hr
+          exact Goal.step2 (step32_other hok hb hne) (step33_ws hok hb (isWs_true hws)) (Nat.lt_succ_self p) hr
       · have hws' : isWs b = false := by simpa using hws
         rw [if_neg hws] at hfin
         by_cases h47 : (b == 47) = true
         · rw [if_pos h47] at hfin
           have hb47 : b = 47 := by simpa using h47
           subst hb47
-          have hr := ih rest hlen' (.beforeAttrName true) (p + 1) 32 false cq tps cattr as hdrop' ⟨hq, by simp⟩ t hfin
+          have hr := ih rest hlen' (.beforeAttrName true) (p + 1) 32 false cq tps cattr as hdrop' hple' ⟨hq, by simp⟩ t hfin
           cases sol with
-          | false => subst hrel; exact Reaches.step (step33_slash hok hb) (Nat.lt_succ_self p) hr
+          | false => subst hrel; exact Goal.step (step33_slash hok hb) (Nat.lt_succ_self p) hr
           | true =>
             subst hrel
-            exact Reaches.step2 (step32_other hok hb (by decide)) (step33_slash hok hb) (Nat.lt_succ_self p) hr
+            exact Goal.step2 (step32_other hok hb (by decide)) (step33_slash hok hb) (Nat.lt_succ_self p) hr
         · rw [if_neg h47] at hfin
           have hb47 : ¬b = 47 := by simpa using h47
           by_cases h62 : (b == 62) = true
           · rw [if_pos h62] at hfin
             have hb62 : b = 62 := by simpa using h62
             subst hb62
-            simp only [Res.finished.injEq] at hfin
             subst hfin
             cases sol with
             | false =>
@@ -194,121 +283,118 @@ theorem run_attrs (n : Nat) : ∀ (rest : List UInt8), rest.length ≤ n →
               exact Reaches.final (step32_gt hok hb) ⟨rfl, rfl, rfl, rfl, rfl, rfl, rfl, rfl, rfl⟩ (Or.inl rfl) (Nat.lt_succ_self p)
           · rw [if_neg h62] at hfin
             have hb62 : ¬b = 62 := by simpa using h62
-            have hr := ih rest hlen' (.attrName p) (p + 1) 34 false cq p (some .default) as hdrop' ⟨hq, rfl, rfl, _, rfl⟩ t hfin
+            have hr := ih rest hlen' (.attrName p) (p + 1) 34 false cq p (some .default) as hdrop' hple' ⟨hq, rfl, rfl, _, rfl⟩ t hfin
             cases sol with
             | false =>
               subst hrel
-              exact Reaches.step (step33_other hok hb (isWs_false hws') hb62 hb47) (Nat.lt_succ_self p) hr
+              exact Goal.step (step33_other hok hb (isWs_false hws') hb62 hb47) (Nat.lt_succ_self p) hr
             | true =>
               subst hrel
-              exact Reaches.step2 (step32_other hok hb hb62) (step33_other hok hb (isWs_false hws') hb62 hb47) (Nat.lt_succ_self p) hr
+              exact Goal.step2 (step32_other hok hb hb62) (step33_other hok hb (isWs_false hws') hb62 hb47) (Nat.lt_succ_self p) hr
     | attrName s =>
       obtain ⟨hS, htps, a, ha⟩ := hrel
       subst hS htps ha
       simp only [attrs] at hfin
       by_cases hws : isWs b = true
       · rw [if_pos hws] at hfin
-        have hr := ih rest hlen' (.afterAttrName ⟨tps, p⟩) (p + 1) 35 false cq tps (some (valueless ⟨tps, p⟩)) as hdrop' ⟨hq, rfl, rfl⟩ t hfin
-        exact Reaches.step (step34_ws hok hb (isWs_true hws)) (Nat.lt_succ_self p) hr
+        have hr := ih rest hlen' (.afterAttrName ⟨tps, p⟩) (p + 1) 35 false cq tps (some (valueless ⟨tps, p⟩)) as hdrop' hple' ⟨hq, rfl, rfl⟩ t hfin
+        exact Goal.step (step34_ws hok hb (isWs_true hws)) (Nat.lt_succ_self p) hr
       · have hws' : isWs b = false := by simpa using hws
         rw [if_neg hws] at hfin
         by_cases h61 : (b == 61) = true
         · rw [if_pos h61] at hfin
           have hb61 : b = 61 := by simpa using h61
           subst hb61
-          have hr := ih rest hlen' (.beforeAttrValue ⟨tps, p⟩) (p + 1) 36 false cq tps (some (valueless ⟨tps, p⟩)) as hdrop' ⟨hq, rfl, rfl⟩ t hfin
-          exact Reaches.step (step34_eq hok hb) (Nat.lt_succ_self p) hr
+          have hr := ih rest hlen' (.beforeAttrValue ⟨tps, p⟩) (p + 1) 36 false cq tps (some (valueless ⟨tps, p⟩)) as hdrop' hple' ⟨hq, rfl, rfl⟩ t hfin
+          exact Goal.step (step34_eq hok hb) (Nat.lt_succ_self p) hr
         · rw [if_neg h61] at hfin
           have hb61 : ¬b = 61 := by simpa using h61
           by_cases h47 : (b == 47) = true
           · rw [if_pos h47] at hfin
             have hb47 : b = 47 := by simpa using h47
             subst hb47
-            have hr := ih rest hlen' (.beforeAttrName true) (p + 1) 32 false cq tps none (as ++ [valueless ⟨tps, p⟩]) hdrop' ⟨hq, by simp⟩ t hfin
-            exact Reaches.step (step34_slash hok hb) (Nat.lt_succ_self p) hr
+            have hr := ih rest hlen' (.beforeAttrName true) (p + 1) 32 false cq tps none (as ++ [valueless ⟨tps, p⟩]) hdrop' hple' ⟨hq, by simp⟩ t hfin
+            exact Goal.step (step34_slash hok hb) (Nat.lt_succ_self p) hr
           · rw [if_neg h47] at hfin
             have hb47 : ¬b = 47 := by simpa using h47
             by_cases h62 : (b == 62) = true
             · rw [if_pos h62] at hfin
               have hb62 : b = 62 := by simpa using h62
               subst hb62
-              simp only [Res.finished.injEq] at hfin
               subst hfin
               exact Reaches.final (step34_gt hok hb) ⟨rfl, rfl, rfl, rfl, rfl, rfl, rfl, rfl, rfl⟩ (Or.inl rfl) (Nat.lt_succ_self p)
             · rw [if_neg h62] at hfin
               have hb62 : ¬b = 62 := by simpa using h62
-              have hr := ih rest hlen' (.attrName tps) (p + 1) 34 en cq tps (some a) as hdrop' ⟨hq, rfl, rfl, _, rfl⟩ t hfin
-              exact Reaches.step (step34_other hok hb (isWs_false hws') hb61 hb47 hb62) (Nat.lt_succ_self p) hr
+              have hr := ih rest hlen' (.attrName tps) (p + 1) 34 en cq tps (some a) as hdrop' hple' ⟨hq, rfl, rfl, _, rfl⟩ t hfin
+              exact Goal.step (step34_other hok hb (isWs_false hws') hb61 hb47 hb62) (Nat.lt_succ_self p) hr
     | afterAttrName nr =>
       obtain ⟨hS, ha⟩ := hrel
       subst hS ha
       simp only [attrs] at hfin
       by_cases hws : isWs b = true
       · rw [if_pos hws] at hfin
-        have hr := ih rest hlen' (.afterAttrName nr) (p + 1) 35 en cq tps (some (valueless nr)) as hdrop' ⟨hq, rfl, rfl⟩ t hfin
-        exact Reaches.step (step35_ws hok hb (isWs_true hws)) (Nat.lt_succ_self p) hr
+        have hr := ih rest hlen' (.afterAttrName nr) (p + 1) 35 en cq tps (some (valueless nr)) as hdrop' hple' ⟨hq, rfl, rfl⟩ t hfin
+        exact Goal.step (step35_ws hok hb (isWs_true hws)) (Nat.lt_succ_self p) hr
       · have hws' : isWs b = false := by simpa using hws
         rw [if_neg hws] at hfin
         by_cases h47 : (b == 47) = true
         · rw [if_pos h47] at hfin
           have hb47 : b = 47 := by simpa using h47
           subst hb47
-          have hr := ih rest hlen' (.beforeAttrName true) (p + 1) 32 false cq tps none (as ++ [valueless nr]) hdrop' ⟨hq, by simp⟩ t hfin
-          exact Reaches.step (step35_slash hok hb) (Nat.lt_succ_self p) hr
+          have hr := ih rest hlen' (.beforeAttrName true) (p + 1) 32 false cq tps none (as ++ [valueless nr]) hdrop' hple' ⟨hq, by simp⟩ t hfin
+          exact Goal.step (step35_slash hok hb) (Nat.lt_succ_self p) hr
         · rw [if_neg h47] at hfin
           have hb47 : ¬b = 47 := by simpa using h47
           by_cases h61 : (b == 61) = true
           · rw [if_pos h61] at hfin
             have hb61 : b = 61 := by simpa using h61
             subst hb61
-            have hr := ih rest hlen' (.beforeAttrValue nr) (p + 1) 36 false cq tps (some (valueless nr)) as hdrop' ⟨hq, rfl, rfl⟩ t hfin
-            exact Reaches.step (step35_eq hok hb) (Nat.lt_succ_self p) hr
+            have hr := ih rest hlen' (.beforeAttrValue nr) (p + 1) 36 false cq tps (some (valueless nr)) as hdrop' hple' ⟨hq, rfl, rfl⟩ t hfin
+            exact Goal.step (step35_eq hok hb) (Nat.lt_succ_self p) hr
           · rw [if_neg h61] at hfin
             have hb61 : ¬b = 61 := by simpa using h61
             by_cases h62 : (b == 62) = true
             · rw [if_pos h62] at hfin
               have hb62 : b = 62 := by simpa using h62
               subst hb62
-              simp only [Res.finished.injEq] at hfin
               subst hfin
               exact Reaches.final (step35_gt hok hb) ⟨rfl, rfl, rfl, rfl, rfl, rfl, rfl, rfl, rfl⟩ (Or.inl rfl) (Nat.lt_succ_self p)
             · rw [if_neg h62] at hfin
               have hb62 : ¬b = 62 := by simpa using h62
-              have hr := ih rest hlen' (.attrName p) (p + 1) 34 false cq p (some .default) (as ++ [valueless nr]) hdrop' ⟨hq, rfl, rfl, _, rfl⟩ t hfin
-              exact Reaches.step (step35_other hok hb (isWs_false hws') hb47 hb61 hb62) (Nat.lt_succ_self p) hr
+              have hr := ih rest hlen' (.attrName p) (p + 1) 34 false cq p (some .default) (as ++ [valueless nr]) hdrop' hple' ⟨hq, rfl, rfl, _, rfl⟩ t hfin
+              exact Goal.step (step35_other hok hb (isWs_false hws') hb47 hb61 hb62) (Nat.lt_succ_self p) hr
     | beforeAttrValue nr =>
       obtain ⟨hS, ha⟩ := hrel
       subst hS ha
       simp only [attrs] at hfin
       by_cases hws : isWs b = true
       · rw [if_pos hws] at hfin
-        have hr := ih rest hlen' (.beforeAttrValue nr) (p + 1) 36 en cq tps (some (valueless nr)) as hdrop' ⟨hq, rfl, rfl⟩ t hfin
-        exact Reaches.step (step36_ws hok hb (isWs_true hws)) (Nat.lt_succ_self p) hr
+        have hr := ih rest hlen' (.beforeAttrValue nr) (p + 1) 36 en cq tps (some (valueless nr)) as hdrop' hple' ⟨hq, rfl, rfl⟩ t hfin
+        exact Goal.step (step36_ws hok hb (isWs_true hws)) (Nat.lt_succ_self p) hr
       · have hws' : isWs b = false := by simpa using hws
         rw [if_neg hws] at hfin
         by_cases hqq : (b == 34 || b == 39) = true
         · rw [if_pos hqq] at hfin
           simp only [Bool.or_eq_true, beq_iff_eq] at hqq
           rcases hqq with rfl | rfl
-          · have hr := ih rest hlen' (.valueQuoted 34 nr (p + 1)) (p + 1) 38 false 34 tps (some (valueless nr)) as hdrop'
+          · have hr := ih rest hlen' (.valueQuoted 34 nr (p + 1)) (p + 1) 38 false 34 tps (some (valueless nr)) as hdrop' hple'
               ⟨Or.inl rfl, rfl, rfl, rfl, rfl, Or.inl ⟨rfl, rfl⟩⟩ t hfin
-            exact Reaches.step (step36_dq hok hb) (Nat.lt_succ_self p) hr
-          · have hr := ih rest hlen' (.valueQuoted 39 nr (p + 1)) (p + 1) 37 false 39 tps (some (valueless nr)) as hdrop'
+            exact Goal.step (step36_dq hok hb) (Nat.lt_succ_self p) hr
+          · have hr := ih rest hlen' (.valueQuoted 39 nr (p + 1)) (p + 1) 37 false 39 tps (some (valueless nr)) as hdrop' hple'
               ⟨Or.inr rfl, rfl, rfl, rfl, rfl, Or.inr ⟨rfl, rfl⟩⟩ t hfin
-            exact Reaches.step (step36_sq hok hb) (Nat.lt_succ_self p) hr
+            exact Goal.step (step36_sq hok hb) (Nat.lt_succ_self p) hr
         · rw [if_neg hqq] at hfin
           simp only [Bool.or_eq_true, beq_iff_eq, not_or] at hqq
           by_cases h62 : (b == 62) = true
           · rw [if_pos h62] at hfin
             have hb62 : b = 62 := by simpa using h62
             subst hb62
-            simp only [Res.finished.injEq] at hfin
             subst hfin
             exact Reaches.final (step36_gt hok hb) ⟨rfl, rfl, rfl, rfl, rfl, rfl, rfl, rfl, rfl⟩ (Or.inr rfl) (Nat.lt_succ_self p)
           · rw [if_neg h62] at hfin
             have hb62 : ¬b = 62 := by simpa using h62
-            have hr := ih rest hlen' (.valueUnquoted nr p) (p + 1) 39 true cq p (some (valueless nr)) as hdrop' ⟨hq, rfl, rfl, rfl, rfl⟩ t hfin
-            exact Reaches.step2 (step36_other hok hb (isWs_false hws') hqq.1 hqq.2 hb62)
+            have hr := ih rest hlen' (.valueUnquoted nr p) (p + 1) 39 true cq p (some (valueless nr)) as hdrop' hple' ⟨hq, rfl, rfl, rfl, rfl⟩ t hfin
+            exact Goal.step2 (step36_other hok hb (isWs_false hws') hqq.1 hqq.2 hb62)
               (step39_first hok hb (isWs_false hws') hb62) (Nat.lt_succ_self p) hr
     | valueQuoted q nr vs =>
       obtain ⟨ha, hvs, hen, hcq, hS⟩ := hrel
@@ -316,7 +402,14 @@ theorem run_attrs (n : Nat) : ∀ (rest : List UInt8), rest.length ≤ n →
       subst ha hen hcq
       rw [attrs_quoted] at hfin
       cases hf : findByte cq (b :: rest) with
-      | none => simp [hf] at hfin
+      | none =>
+        simp only [hf] at hfin
+        subst hfin
+        rw [← hdrop] at hf
+        have hlenp : p + 1 + (inp.drop p).length = inp.length + 1 := by simp only [List.length_drop]; omega
+        rcases hS with ⟨rfl, rfl⟩ | ⟨rfl, rfl⟩
+        · exact ReachesEnd.final (step38_eof hok hf) hlenp rfl rfl rfl rfl rfl
+        · exact ReachesEnd.final (step37_eof hok hf) hlenp rfl rfl rfl rfl rfl
       | some k =>
         simp only [hf] at hfin
         have hk : k < (b :: rest).length := by
@@ -326,37 +419,40 @@ theorem run_attrs (n : Nat) : ∀ (rest : List UInt8), rest.length ≤ n →
           · rw [List.getElem?_eq_none hge] at this; simp at this
         have hdrop2 : inp.drop (p + k + 1) = (b :: rest).drop (k + 1) := by
           rw [← hdrop, List.drop_drop]; congr 1
+        have hple2 : p + k + 1 ≤ inp.length := by
+          have := congrArg List.length hdrop
+          simp only [List.length_drop] at this
+          omega
         have hlen2 : ((b :: rest).drop (k + 1)).length ≤ n := by
           simp only [List.length_drop, List.length_cons] at hlen hk ⊢; omega
         rw [← hdrop] at hf
         rcases hS with ⟨rfl, rfl⟩ | ⟨rfl, rfl⟩
         · have hr := ih _ hlen2 (.beforeAttrName false) (p + k + 1) 33 false 34 p none
-            (as ++ [valued nr p (p + k) (p + k + 1)]) hdrop2 ⟨Or.inl rfl, by simp⟩ t hfin
-          exact Reaches.step (step38_found hok hf) (by omega) hr
+            (as ++ [valued nr p (p + k) (p + k + 1)]) hdrop2 hple2 ⟨Or.inl rfl, by simp⟩ t hfin
+          exact Goal.step (step38_found hok hf) (by omega) hr
         · have hr := ih _ hlen2 (.beforeAttrName false) (p + k + 1) 33 false 39 p none
-            (as ++ [valued nr p (p + k) (p + k + 1)]) hdrop2 ⟨Or.inr rfl, by simp⟩ t hfin
-          exact Reaches.step (step37_found hok hf) (by omega) hr
+            (as ++ [valued nr p (p + k) (p + k + 1)]) hdrop2 hple2 ⟨Or.inr rfl, by simp⟩ t hfin
+          exact Goal.step (step37_found hok hf) (by omega) hr
     | valueUnquoted nr vs =>
       obtain ⟨hS, hen, htps, ha⟩ := hrel
       subst hS hen htps ha
       simp only [attrs] at hfin
       by_cases hws : isWs b = true
       · rw [if_pos hws] at hfin
-        have hr := ih rest hlen' (.beforeAttrName false) (p + 1) 33 false cq tps none (as ++ [valued nr tps p p]) hdrop' ⟨hq, by simp⟩ t hfin
-        exact Reaches.step (step39_ws hok hb (isWs_true hws) hq) (Nat.lt_succ_self p) hr
+        have hr := ih rest hlen' (.beforeAttrName false) (p + 1) 33 false cq tps none (as ++ [valued nr tps p p]) hdrop' hple' ⟨hq, by simp⟩ t hfin
+        exact Goal.step (step39_ws hok hb (isWs_true hws) hq) (Nat.lt_succ_self p) hr
       · have hws' : isWs b = false := by simpa using hws
         rw [if_neg hws] at hfin
         by_cases h62 : (b == 62) = true
         · rw [if_pos h62] at hfin
           have hb62 : b = 62 := by simpa using h62
           subst hb62
-          simp only [Res.finished.injEq] at hfin
           subst hfin
           exact Reaches.final (step39_gt hok hb hq) ⟨rfl, rfl, rfl, rfl, rfl, rfl, rfl, rfl, rfl⟩ (Or.inl rfl) (Nat.lt_succ_self p)
         · rw [if_neg h62] at hfin
           have hb62 : ¬b = 62 := by simpa using h62
-          have hr := ih rest hlen' (.valueUnquoted nr tps) (p + 1) 39 true cq tps (some (valueless nr)) as hdrop' ⟨hq, rfl, rfl, rfl, rfl⟩ t hfin
-          exact Reaches.step (step39_other hok hb (isWs_false hws') hb62) (Nat.lt_succ_self p) hr
+          have hr := ih rest hlen' (.valueUnquoted nr tps) (p + 1) 39 true cq tps (some (valueless nr)) as hdrop' hple' ⟨hq, rfl, rfl, rfl, rfl⟩ t hfin
+          exact Goal.step (step39_other hok hb (isWs_false hws') hb62) (Nat.lt_succ_self p) hr
 
 omit hok in
 /-- the spec never changes the tag name once the attribute states are entered -/
@@ -387,68 +483,89 @@ theorem slice_snoc {inp : Bytes} {s p : Nat} {b : UInt8} (hs : s ≤ p) (hb : in
 /-- **The tag name loop**, then the attribute loop. -/
 theorem run_tagName (start : Nat) (n : Nat) : ∀ (rest : List UInt8), rest.length ≤ n →
     ∀ (p : Nat) (en : Bool) (cq : UInt8) (cattr : Option AttrOutline) (nm0 : Range) (hh : Nat),
-    inp.drop p = rest → (cq = 34 ∨ cq = 39) → start ≤ p → hh = NameHash.ofBytes (slice inp start p) →
-    ∀ t, tagName start rest p = .finished t →
-    Reaches env inp F (NameHash.ofBytes (slice inp t.name.start t.name.end)) t p
+    inp.drop p = rest → p ≤ inp.length → (cq = 34 ∨ cq = 39) → start ≤ p → hh = NameHash.ofBytes (slice inp start p) →
+    ∀ res, tagName start rest p = res →
+    Goal env inp F (fun t => NameHash.ofBytes (slice inp t.name.start t.name.end)) res p
       (mach F p 31 en cq start (some (.startTag nm0 hh .html [] false)) cattr) := by
+  have hend : ∀ (p : Nat) (en : Bool) (cq : UInt8) (cattr : Option AttrOutline) (ct : Option TagOutline),
+      inp.drop p = [] → p ≤ inp.length → ReachesEnd env inp F (mach F p 31 en cq start ct cattr) := by
+    intro p en cq cattr ct hdrop hple
+    have hp : p = inp.length := by rw [List.drop_eq_nil_iff] at hdrop; omega
+    exact ReachesEnd.final (step31_eof hok (getElem?_none_of_drop_nil hdrop)) (by simp [hp]) rfl rfl rfl rfl rfl
   induction n with
   | zero =>
-    intro rest hlen p en cq cattr nm0 hh _ _ _ _ t hfin
+    intro rest hlen p en cq cattr nm0 hh hdrop hple _ _ _ t hfin
     have : rest = [] := by cases rest <;> simp_all
     subst this
-    simp [tagName] at hfin
+    simp only [tagName] at hfin
+    subst hfin
+    exact hend p en cq cattr _ hdrop hple
   | succ n ih =>
-    intro rest hlen p en cq cattr nm0 hh hdrop hq hsp hhh t hfin
+    intro rest hlen p en cq cattr nm0 hh hdrop hple hq hsp hhh t hfin
     cases rest with
-    | nil => simp [tagName] at hfin
+    | nil =>
+      simp only [tagName] at hfin
+      subst hfin
+      exact hend p en cq cattr _ hdrop hple
     | cons b rest =>
     obtain ⟨hb, hdrop'⟩ := drop_cons_facts hdrop
     have hlen' : rest.length ≤ n := by simp at hlen; omega
+    have hple' : p + 1 ≤ inp.length := by
+      rcases Nat.lt_or_ge p inp.length with hlt | hge
+      · exact hlt
+      · rw [List.getElem?_eq_none hge] at hb; simp at hb
+    -- the attribute loop from a finished name, re-labelled with the hash of the name bytes
+    have relabel : ∀ (S : Nat) (p' : Nat) (m' : M κ), Goal env inp F (fun _ => hh) t p' m' →
+        (∀ t', t = .finished t' → t'.name = ⟨start, p⟩) →
+        Goal env inp F (fun t => NameHash.ofBytes (slice inp t.name.start t.name.end)) t p' m' := by
+      intro S p' m' hg hname
+      cases t with
+      | unfinished => exact hg
+      | finished t' =>
+        have := hname t' rfl
+        show Reaches env inp F (NameHash.ofBytes (slice inp t'.name.start t'.name.end)) t' p' m'
+        rw [this]
+        simp only
+        rw [← hhh]
+        exact hg
     simp only [tagName] at hfin
     by_cases hws : isWs b = true
     · rw [if_pos hws] at hfin
-      have hname := attrs_name ⟨start, p⟩ rest _ _ _ _ hfin
       have hr := run_attrs hok F ⟨start, p⟩ hh rest.length rest (Nat.le_refl _) (.beforeAttrName false) (p + 1) 33 false cq start
-        cattr [] hdrop' ⟨hq, by simp⟩ t hfin
-      rw [hname]
-      simp only
-      rw [← hhh]
-      exact Reaches.step (step31_ws hok hb (isWs_true hws)) (Nat.lt_succ_self p) hr
+        cattr [] hdrop' hple' ⟨hq, by simp⟩ t hfin
+      exact Goal.step (step31_ws hok hb (isWs_true hws)) (Nat.lt_succ_self p)
+        (relabel 33 _ _ hr (fun t' ht => attrs_name ⟨start, p⟩ rest _ _ _ _ (ht ▸ hfin)))
     · have hws' : isWs b = false := by simpa using hws
       rw [if_neg hws] at hfin
       by_cases h47 : (b == 47) = true
       · rw [if_pos h47] at hfin
         have hb47 : b = 47 := by simpa using h47
         subst hb47
-        have hname := attrs_name ⟨start, p⟩ rest _ _ _ _ hfin
         have hr := run_attrs hok F ⟨start, p⟩ hh rest.length rest (Nat.le_refl _) (.beforeAttrName true) (p + 1) 32 false cq start
-          cattr [] hdrop' ⟨hq, by simp⟩ t hfin
-        rw [hname]
-        simp only
-        rw [← hhh]
-        exact Reaches.step (step31_slash hok hb) (Nat.lt_succ_self p) hr
+          cattr [] hdrop' hple' ⟨hq, by simp⟩ t hfin
+        exact Goal.step (step31_slash hok hb) (Nat.lt_succ_self p)
+          (relabel 32 _ _ hr (fun t' ht => attrs_name ⟨start, p⟩ rest _ _ _ _ (ht ▸ hfin)))
       · rw [if_neg h47] at hfin
         have hb47 : ¬b = 47 := by simpa using h47
         by_cases h62 : (b == 62) = true
         · rw [if_pos h62] at hfin
           have hb62 : b = 62 := by simpa using h62
           subst hb62
-          simp only [Res.finished.injEq] at hfin
           subst hfin
-          simp only
+          show Reaches env inp F (NameHash.ofBytes (slice inp start p)) _ p _
           rw [← hhh]
           exact Reaches.final (step31_gt hok hb) ⟨rfl, rfl, rfl, rfl, rfl, rfl, rfl, rfl, rfl⟩ (Or.inl rfl) (Nat.lt_succ_self p)
         · rw [if_neg h62] at hfin
           have hb62 : ¬b = 62 := by simpa using h62
-          have hr := ih rest hlen' (p + 1) en cq cattr nm0 (NameHash.update hh b) hdrop' hq (by omega)
+          have hr := ih rest hlen' (p + 1) en cq cattr nm0 (NameHash.update hh b) hdrop' hple' hq (by omega)
             (by rw [slice_snoc hsp hb, hhh]; simp [NameHash.ofBytes, List.foldl_append]) t hfin
-          exact Reaches.step (step31_other hok hb (isWs_false hws') hb62 hb47) (Nat.lt_succ_self p) hr
+          exact Goal.step (step31_other hok hb (isWs_false hws') hb62 hb47) (Nat.lt_succ_self p) hr
 
-/-- **From the data state at `<`** (no pending text) to `emit_tag`. -/
+/-- **From the data state at `<`** (no pending text) to `emit_tag`, or to the end of the input. -/
 theorem run_startTag (i : Nat) (hls : F.ls = i) (en : Bool) (cq : UInt8) (hq : cq = 34 ∨ cq = 39) (tps : Nat)
-    (ct : Option TagOutline) (cattr : Option AttrOutline) (t : Tag)
-    (hspec : startTagAt inp i = some (.finished t)) :
-    Reaches env inp F (NameHash.ofBytes (slice inp t.name.start t.name.end)) t i (mach F i 2 en cq tps ct cattr) := by
+    (ct : Option TagOutline) (cattr : Option AttrOutline) (res : Res)
+    (hspec : startTagAt inp i = some res) :
+    Goal env inp F (fun t => NameHash.ofBytes (slice inp t.name.start t.name.end)) res i (mach F i 2 en cq tps ct cattr) := by
   unfold startTagAt at hspec
   split at hspec
   · rename_i b rest hdrop
@@ -457,16 +574,20 @@ theorem run_startTag (i : Nat) (hls : F.ls = i) (en : Bool) (cq : UInt8) (hq : c
       simp only [Option.some.injEq] at hspec
       obtain ⟨hb0, hdrop1⟩ := drop_cons_facts hdrop
       obtain ⟨hb1, hdrop2⟩ := drop_cons_facts hdrop1
+      have hlen : i + 2 ≤ inp.length := by
+        have := congrArg List.length hdrop
+        simp only [List.length_drop, List.length_cons] at this
+        omega
       have hr := run_tagName hok F (i + 1) rest.length rest (Nat.le_refl _) (i + 2) false cq cattr .default
-        (NameHash.update NameHash.new b) hdrop2 hq (by omega)
+        (NameHash.update NameHash.new b) hdrop2 hlen hq (by omega)
         (by rw [show i + 2 = (i + 1) + 1 by omega, slice_snoc (Nat.le_refl _) hb1]
-            simp [slice, NameHash.ofBytes]) t hspec
+            simp [slice, NameHash.ofBytes]) res hspec
       have h1 := step2_lt hok (inp := inp) (p := i) (il := F.il) (en := en) (ca := F.ca) (lsh := F.lsh) (cq := cq)
         (ltt := F.ltt) (x := F.x) (l := ⟨F.ls, tps, ct, F.cnt, cattr, F.fd⟩) hb0 hls
       have h2 := step28_alpha hok (inp := inp) (p := i + 1) (il := F.il) (en := false) (ca := F.ca) (lsh := F.lsh)
         (cq := cq) (ltt := F.ltt) (ls := F.ls) (tps := tps) (ct := ct) (cnt := F.cnt) (cattr := cattr) (fd := F.fd)
         (x := F.x) hb1 halpha
-      exact Reaches.step h1 (Nat.lt_succ_self i) (Reaches.step h2 (Nat.lt_succ_self (i + 1)) hr)
+      exact Goal.step h1 (Nat.lt_succ_self i) (Goal.step h2 (Nat.lt_succ_self (i + 1)) hr)
     · simp at hspec
   · simp at hspec
 
